@@ -76,12 +76,16 @@ fn run_case(mode: &str, src: &str) -> String {
             }
         }
         "buildfile" => {
-            // the full file pipeline: type checker first, then the VM (FileBuilder::build)
+            // the full file pipeline: type checker first, then the VM (FileBuilder::build).
+            // One shared environment (stdlib translated once); a unique file name per case because the
+            // environment caches ops / values / shapes by path.
+            static COUNTER: std::sync::atomic::AtomicUsize = std::sync::atomic::AtomicUsize::new(0);
+            let n = COUNTER.fetch_add(1, std::sync::atomic::Ordering::SeqCst);
             let dir = std::env::temp_dir().join(format!("verif_driver_{}", std::process::id()));
             let _ = std::fs::create_dir_all(&dir);
-            let path = dir.join("case.ucg");
+            let path = dir.join(format!("case_{}.ucg", n));
             std::fs::write(&path, src).unwrap();
-            let env = RefCell::new(Environment::new(io::sink(), io::sink()));
+            let env = shared_env();
             let import_paths = vec![];
             let mut builder = FileBuilder::new(&dir, &import_paths, &env);
             builder.set_strict(true);
@@ -89,7 +93,7 @@ fn run_case(mode: &str, src: &str) -> String {
                 Ok(_) => "OK\t".to_string(),
                 Err(e) => format!("ERR\t{}", esc(&format!("{}", e))),
             };
-            let _ = std::fs::remove_dir_all(&dir);
+            let _ = std::fs::remove_file(&path);
             r
         }
         "ast" => match parse(OffsetStrIter::new(src), None) {
